@@ -672,6 +672,88 @@ def _multicall_responses(fn):
     return (bool(ok), ids)
 
 
+_NAME_FUNCS = [("validate_request", "validate_request"),
+               ("_marshaled_single_dispatch", "SimpleJSONRPCDispatcher._marshaled_single_dispatch"),
+               ("_dispatch", "SimpleJSONRPCDispatcher._dispatch")]
+_CONTENT_CALLS = {"len", "any", "all", "iter", "list", "set", "sorted", "tuple", "ord", "hash", "reversed", "enumerate", "map", "filter"}
+_CONTENT_MODULES = {"re", "fnmatch", "string", "unicodedata", "keyword"}
+
+
+def _is_method_key(e):
+    """`<x>.get("method"…)` / `<x>["method"]` / `<x>.pop("method"…)`."""
+    if isinstance(e, ast.Call) and isinstance(e.func, ast.Attribute) and e.func.attr in ("get", "pop") and e.args:
+        k = e.args[0]
+        return isinstance(k, ast.Constant) and k.value == "method"
+    if isinstance(e, ast.Subscript):
+        k = e.slice
+        return isinstance(k, ast.Constant) and k.value == "method"
+    return False
+
+
+def _tracked_names(fn, label):
+    """The locals that hold the method name: the parameter of _dispatch, anything bound to request["method"], aliases."""
+    tracked = set()
+    if label == "_dispatch":
+        params = [a.arg for a in fn.args.args]
+        if len(params) >= 2:
+            tracked.add(params[1])
+    changed = True
+    while changed:
+        changed = False
+        for n in ast.walk(fn):
+            if isinstance(n, ast.Assign) and len(n.targets) == 1 and isinstance(n.targets[0], ast.Name):
+                v = n.value
+                if _is_method_key(v) or (isinstance(v, ast.Name) and v.id in tracked):
+                    if n.targets[0].id not in tracked:
+                        tracked.add(n.targets[0].id)
+                        changed = True
+    return tracked
+
+
+def _empty_const(e):
+    return isinstance(e, ast.Constant) and (e.value is None or e.value == "" or e.value == b"")
+
+
+def _name_inspections(src):
+    """
+    Every place on the serve path where the CONTENT of the method name is looked at — beyond its truth value, its type, its
+    use as a key of `self.funcs`, as an argument forwarded to a resolver / dispatcher / formatter: attribute access on the
+    name (`method.startswith`, `.split`, `.lower` …), comparison with anything but None / "", membership tests, indexing
+    or slicing, iteration, `re.*` / `fnmatch.*` / `len` … applied to it.  None when a function is not found.
+    """
+    out = []
+    for label, qual in _NAME_FUNCS:
+        fn = src.func("SimpleJSONRPCServer", qual)
+        if fn is None:
+            return None
+        tracked = _tracked_names(fn, label)
+        if not tracked:
+            return None
+
+        def is_t(e):
+            return isinstance(e, ast.Name) and e.id in tracked
+        for n in ast.walk(fn):
+            if isinstance(n, ast.Attribute) and is_t(n.value):
+                out.append("%s:attribute:%s" % (label, n.attr))
+            elif isinstance(n, ast.Compare):
+                operands = [n.left] + list(n.comparators)
+                if any(is_t(o) for o in operands) and not all(is_t(o) or _empty_const(o) for o in operands):
+                    out.append("%s:compare" % label)
+            elif isinstance(n, ast.Subscript) and is_t(n.value):
+                out.append("%s:index" % label)
+            elif isinstance(n, (ast.For, ast.comprehension)) and is_t(n.iter):
+                out.append("%s:iterate" % label)
+            elif isinstance(n, ast.Call) and any(is_t(a) for a in n.args):
+                f = n.func
+                if isinstance(f, ast.Name) and f.id in _CONTENT_CALLS:
+                    out.append("%s:call:%s" % (label, f.id))
+                elif isinstance(f, ast.Attribute) and isinstance(f.value, ast.Name) and f.value.id in _CONTENT_MODULES:
+                    out.append("%s:call:%s.%s" % (label, f.value.id, f.attr))
+            elif isinstance(n, ast.Match) and is_t(n.subject):
+                out.append("%s:match" % label)
+    return sorted(set(out))
+
+
 def facts(src):
     src = norm.nsource(src)
     out = []
@@ -769,4 +851,11 @@ def facts(src):
     out.append(Fact("multicallJobIds", "String", None if mr is None else lean_str(mr[1]), ["C01"],
                     "MultiCall._request: how the jobs get their ids ('default': job.request() without arguments, a fresh uuid each)",
                     json_value=None if mr is None else mr[1]))
+    ni = _name_inspections(src)
+    out.append(Fact("methodNameInspections", "List String", None if ni is None else lean_list([lean_str(x) for x in ni]), ["C01"],
+                    "validate_request / _marshaled_single_dispatch / _dispatch: every place where the CONTENT of the method name is "
+                    "looked at (attribute access such as .startswith / .split, comparison with anything but None or \"\", "
+                    "membership, indexing, iteration, re.* / len … applied to it) — beyond its truth value, its type, its use as "
+                    "key of self.funcs and as an argument forwarded to a resolver, dispatcher or formatter; the variable is "
+                    "followed from request[\"method\"] / the parameter of _dispatch, not by its spelling", json_value=ni))
     return out
